@@ -231,6 +231,9 @@ def gen(rng: Any, prop: str, tier: str) -> dict[str, Any]:
         elif kind == "description":
             ops.append({**base, "k": "description"})
         elif kind == "describe":
+            if want_c06 and rng.random() < 0.25:
+                ops.append({**base, "k": "rng_episode", "how": rng.choice(["describe", "describe", "description"]), "seed": rng.randint(1, 99)})
+                continue
             q = _query(rng, n_rows, is_dict, hz)
             ops.append({**base, "k": "describe", **q})
         elif kind == "nonquery":
@@ -445,6 +448,9 @@ class Machine:
             return
         if k == "describe":
             self.describe(op, cur, st, brief)
+            return
+        if k == "rng_episode":
+            self.rng_episode(op, brief)
             return
         raise core.HarnessError(f"cursor machine: unknown op {k}")
 
@@ -661,6 +667,33 @@ class Machine:
             st["cols"] = None
         else:
             self.state[(op["s"], op["cur"])] = {"kind": "other", "arraysize": 1}
+
+
+    def rng_episode(self, op: dict[str, Any], brief: dict[str, Any]) -> None:
+        """A session's random generator is part of the session: describe(q) of a seeded query (which must not execute
+        q) and reading description must leave the sequence of later unseeded RANDOM() values where it was."""
+        self.probe("rng_episode")
+        vals = []
+        try:
+            for disturbed in (False, True):
+                conn = self.world.fs.connect(database=DB, schema=SC)
+                c = conn.cursor()
+                c.execute("SELECT RANDOM(42) AS R")
+                c.fetchall()
+                if disturbed:
+                    if op["how"] == "describe":
+                        conn.cursor().describe(f"SELECT RANDOM({op['seed']}) AS R")
+                    else:
+                        _ = c.description
+                c.execute("SELECT RANDOM() AS R")
+                vals.append(norm_rows(c.fetchall()))
+                conn.close()
+        except BaseException as e:  # noqa: BLE001
+            self.flag("C06", f"rng-episode-raises/{type(e).__name__}", "seeded RANDOM, describe and description must work", {**brief, "error": exc_record(e)})
+            return
+        if vals[0] != vals[1]:
+            self.flag("C06", f"{op['how']}-side-effect/random-generator", "describe(q) / description never change the session (here: its random generator)",
+                      {**brief, "undisturbed": vals[0], "after": vals[1]})
 
 
 def op_dup(st: dict[str, Any]) -> bool:
